@@ -25,15 +25,24 @@ CORPUS = os.path.join(VERIF, "corpus")
 
 
 def split_model(raw_path):
-    """strip '#quirk' lines from the driver's output; return (reply lines, {reply index: [quirks]})"""
-    mod, quirk_at = [], {}
+    """strip '#' lines from the driver's output; return (reply lines, {reply index: [quirks]},
+    number of operations also executed by the entry-level model AEng, [(reply index, AEng output)] mismatches)"""
+    mod, quirk_at, aeng_ok, aeng_bad = [], {}, 0, []
     with open(raw_path, encoding="utf-8", errors="replace") as f:
         for l in f.read().split("\n"):
             if l.startswith("#quirk "):
                 quirk_at.setdefault(len(mod), []).extend(l[7:].split(","))
+            elif l == "#aeng-ok":
+                aeng_ok += 1
+            elif l.startswith("#aeng-mismatch "):
+                aeng_bad.append((len(mod), l[15:]))
             else:
                 mod.append(l)
-    return mod, quirk_at
+    return mod, quirk_at, aeng_ok, aeng_bad
+
+
+def mod_line(raw, i):
+    return "(see model output line %d)" % (i + 1)
 
 
 def run_profile(ctx, binp, profile, nprog, tag):
@@ -65,8 +74,12 @@ def analyse(out):
                 res["driver_ok"] = p.returncode == 0
             except subprocess.TimeoutExpired:
                 res["driver_ok"] = False
+    res["aeng_ops"] = 0
+    res["aeng_mismatch"] = []
     if res["driver_ok"]:
-        mod, quirk_at = split_model(raw)
+        mod, quirk_at, res["aeng_ops"], aeng_bad = split_model(raw)
+        for (i, txt) in aeng_bad[:20]:
+            res["aeng_mismatch"].append({"op": ops[i] if i < len(ops) else "?", "eng": mod_line(raw, i), "aeng": txt})
     for k, start, n in pm:
         qs = []
         first_q = None
@@ -182,6 +195,8 @@ def engine_check(ctx, modules, profiles, oracle_props, what, assumptions, real_p
     for r in results:
         if not r["driver_ok"] and not any("lake build" in t for t in ctx.tie_broken):
             ctx.tie_broken.append("wdriver could not be run on profile %s" % r["profile"])
+        for d in r.get("aeng_mismatch", [])[:3]:
+            ctx.tie_broken.append("correspondence AEng/Eng (%s): op=%r AEng=%r %s" % (r["profile"], d["op"], d["aeng"], d["eng"]))
         for d in r["diverging"][:3]:
             ctx.tie_broken.append("correspondence engine/%s: program %d line %d op=%r impl=%r model=%r" %
                                   (r["profile"], d["program"], d["line"], d["op"], d["impl"], d["model"]))
@@ -244,6 +259,8 @@ def engine_check(ctx, modules, profiles, oracle_props, what, assumptions, real_p
         "disagreements_checked": total_prog,
         "disagreements": sum(len(r["diverging"]) for r in results),
         "tolerated_divergences_in_multi_unit_region": sum(r["tolerated_divergences"] for r in results),
+        "operations_also_run_on_entry_level_model_AEng": sum(r.get("aeng_ops", 0) for r in results),
+        "AEng_mismatches": sum(len(r.get("aeng_mismatch", [])) for r in results),
         "profiles": [{"profile": r["profile"], "geometry": "small" if r["small"] else "real", "programs": r["programs"],
                       "input_distribution": r["stats"], "programs_with_quirk": dict(r["quirk_hist"]),
                       "oracle_violations_by_property": dict(collections.Counter(v["prop"] for v in r["violations"]))} for r in results],
